@@ -170,17 +170,22 @@ func ruleR08a(c *Check, w *wrapperInfo) {
 		}
 	}
 	// nil only when nothing was collected
+	// (the collecting loop and the len()==0 test may live in helpers of Set)
+	region := regionOf(c, fn)
+	inRegion := func(e *engine.Edge) bool { return e.Via != nil && region[engine.TopFunc(e.Via.Parent())] }
 	var recvs []ssa.Value
-	for _, b := range fn.Blocks {
-		for _, in := range b.Instrs {
-			if u, ok := in.(*ssa.UnOp); ok && u.Op.String() == "<-" {
-				recvs = append(recvs, u)
+	for rf := range region {
+		for _, b := range rf.Blocks {
+			for _, in := range b.Instrs {
+				if u, ok := in.(*ssa.UnOp); ok && u.Op.String() == "<-" {
+					recvs = append(recvs, u)
+				}
 			}
 		}
 	}
 	okCollect := false
 	if len(recvs) > 0 {
-		reach, _ := engine.PathExists(fn, nil, successReturn, engine.PathQuery{CutEdge: engine.CutEdgesWhere(func(a engine.Atom) bool {
+		reach, _ := nilReturnReachable(fn, engine.PathQuery{CutEdge: engine.CutEdgesWhere(func(a engine.Atom) bool {
 			arg, ok := lenArg(a.V)
 			if !ok {
 				return false
@@ -189,15 +194,54 @@ func ruleR08a(c *Check, w *wrapperInfo) {
 			if !isK || k.Value == nil || k.Int64() != 0 || !(a.Op == "le" || a.Op == "eq") {
 				return false
 			}
-			back := c.G.Backward([]Node{arg}, localTo(fn))
+			back := c.G.Backward([]Node{arg}, inRegion)
 			for _, r := range recvs {
 				if back.Has(r) {
 					return true
 				}
 			}
 			return false
-		})})
+		})}, 0)
 		okCollect = !reach
+		// every non-nil error received from the channel is kept (appended / stored) before the next receive
+		for _, rv := range recvs {
+			u := rv.(*ssa.UnOp)
+			var val, okv ssa.Value = u, nil
+			if u.CommaOk {
+				val = nil
+				for _, ref := range *u.Referrers() {
+					if ex, isEx := ref.(*ssa.Extract); isEx {
+						if ex.Index == 0 {
+							val = ex
+						} else {
+							okv = ex
+						}
+					}
+				}
+			}
+			if val == nil {
+				continue // the value is discarded: not an error collector
+			}
+			if _, isErr := val.Type().Underlying().(*types.Interface); !isErr {
+				continue
+			}
+			fw := map[ssa.Instruction]bool{}
+			valueForwarders(val, fw, 0)
+			g := u.Parent()
+			cut := engine.CutEdgesWhere(func(a engine.Atom) bool {
+				if a.Op == "nil" && a.V == val {
+					return true
+				}
+				return okv != nil && a.Op == "false" && a.V == okv
+			})
+			lost, _ := engine.PathExists(g, u, func(in ssa.Instruction) bool {
+				_, isRet := in.(*ssa.Return)
+				return (isRet && in.Parent() == g) || in == ssa.Instruction(u)
+			}, engine.PathQuery{CutEdge: cut, CutInstr: func(in ssa.Instruction) bool { return fw[in] }, Shallow: true})
+			if lost {
+				okCollect = false
+			}
+		}
 	}
 	c.Require(okCollect, "R08a", "nil-only-without-errors/"+fname, "`return nil` is dominated by `len(collected errors) == 0` where the errors are received from the goroutines' channel", "Set can return nil although an error was received from one of the tier writers (or the channel is never drained)", c.P.Pos(fn.Pos()))
 }
